@@ -331,6 +331,12 @@ func genJournal(r *rng, o genOpts) Journal {
 				}
 				p := base * (1 + float64(r.rangeInt(-20, 20))/100)
 				ps := fmt.Sprintf("%.4f", p)
+				if r.chance(8) {
+					// a price with 7-10 significant decimal places (a weak currency quoted in a strong one); every other
+					// generated price had at most 6 (seeded change C09d-print-rounds-prices printed prices rounded to 6)
+					p = p / 100000
+					ps = fmt.Sprintf("%.*f", r.rangeInt(7, 10), p)
+				}
 				if k > 0 && len(coms) > 2 && r.chance(25) {
 					// the price graph changes over time: a later quote of c against ANOTHER commodity
 					// (an alternative, often shorter, path between commodities that are already
@@ -433,6 +439,31 @@ func genJournal(r *rng, o genOpts) Journal {
 	}
 	// arrival order is irrelevant to knut; shuffle so that nothing depends on it
 	r.shuffle(len(j), func(a, b int) { j[a], j[b] = j[b], j[a] })
+	if o.prices && len(coms) > 1 && r.chance(25) {
+		// a price line on the day of the journal's FIRST transaction, directly in front of it in the file (a quote
+		// noted together with the opening booking): the builder's running minimum / maximum of dates sees a price and a
+		// transaction of one date one after the other (seeded change C02d-period-bounds-only-when-date-moves missed the
+		// first transaction's day in that history; the shuffled journals rarely produce this adjacency)
+		first := -1
+		for i, d := range j {
+			if d.Kind == 'T' && d.Accrual == nil && (first < 0 || d.Date < j[first].Date) {
+				first = i
+			}
+		}
+		if first >= 0 {
+			c := coms[1]
+			pd := Dir{Kind: 'P', Date: j[first].Date, Com: c, Price: fmt.Sprintf("%d.%02d", r.rangeInt(1, 300), r.intn(100)), Target: coms[0]}
+			clash := false
+			for _, d := range j {
+				if d.Kind == 'P' && d.Date == pd.Date && (d.Com == c && d.Target == coms[0] || d.Com == coms[0] && d.Target == c) {
+					clash = true
+				}
+			}
+			if !clash {
+				j = append(j[:first:first], append(Journal{pd}, j[first:]...)...)
+			}
+		}
+	}
 	return j
 }
 
